@@ -332,7 +332,8 @@ class Interp:
             ctx.rec('scope-left', act, pc, name)
             # public state of every task that was accepted into this scope, read at the moment the block is left
             ctx.rec('scope-children', act, pc, (name, {c: ctx.tasks[c].status.name
-                                                       for c in self.children_of.get(name, ())}))
+                                                       for c in self.children_of.get(name, ())},
+                                                {c: bool(ctx.tasks[c].done) for c in self.children_of.get(name, ())}))
 
     async def op_SCOPE(self, act, pc, name, body):
         await self._scope(act, pc, name, Scope(), body)
